@@ -143,6 +143,18 @@ class EncodeState:
                     EncodeError)
                 internal_value = int(internal_value)
 
+            # make sure that the value can be represented using the
+            # available bits including the sign
+            if bit_length > 0 and base_type_encoding in (None, Encoding.TWOC, Encoding.ONEC,
+                                                         Encoding.SM):
+                max_value = (1 << (bit_length - 1)) - 1
+                min_value = -max_value - 1 if base_type_encoding in (None,
+                                                                     Encoding.TWOC) else -max_value
+                if internal_value < min_value or internal_value > max_value:
+                    odxraise(
+                        f"The value '{internal_value!r}' cannot be encoded using "
+                        f"{bit_length} bits.", EncodeError)
+
             if base_type_encoding == Encoding.ONEC:
                 # one-complement
                 if internal_value >= 0:
